@@ -211,6 +211,15 @@ def nested_proxy_files(res, rng, n):
             outer.mappings.values[0] = outer.Mapping((mm.index, 5))
             outer.update_user_defined_controllers()
             mm = outer
+        if k % 5 == 0:
+            # every one of the 96 slots of the outermost module exposed, each holding its own stored value
+            mm.user_defined_controllers = 96
+            for i in range(1, 96):
+                try:
+                    mm.set_raw(f"user_defined_{i + 1}", 100 + i)
+                except Exception:
+                    pass
+            res.count("nested_proxy_files_with_96_slots")
         desc = {"nested_proxy": f"{T}.{sc.name}", "levels": levels}
         try:
             raw = api.Synth(mm).read()
@@ -539,6 +548,74 @@ def edits_truncate_cvals(res, origin, raw, base_snap, desc):
         i += 1
 
 
+def edits_no_modules(res, origin, raw, base_snap, desc):
+    """The pattern-clipboard container: project header and patterns, no module chunks at all (a documented file type)."""
+    if base_snap.get("kind") != "project":
+        return
+    chunks = [(c[0], c[1]) for c in iffparse.parse(raw)]
+    cut = None
+    for i, c in enumerate(chunks):
+        if c[0] == b"PEND":
+            cut = i + 1
+    if cut is None:
+        cut = next((i for i, c in enumerate(chunks) if c[0] in (b"SFFF", b"SEND")), len(chunks))
+    res.count("no_module_containers")
+    try:
+        o = workload.load(iffparse.build(chunks[:cut]))
+    except Exception as e:
+        res.violation(f"C04:no-module-container-unloadable:{workload.exc_key(e)}", f"{origin}: header + patterns without any module chunk does not load: {e!r}", desc)
+        return
+    S = _snap(o)
+    for k in base_snap:
+        if k in ("modules", "kind"):
+            continue
+        if S.get(k) != base_snap[k]:
+            res.violation(f"C04:no-module-container:{k if k != 'patterns' else 'patterns'}", f"{origin}: without module chunks {k} loads as {snapshot._short(S.get(k))}, with them as {snapshot._short(base_snap[k])}", desc)
+            return
+
+
+def edits_permute_groups(res, origin, raw, base_snap, desc, rng):
+    """The module-specific chunks of a module (number / data / format / rate groups) in another order: the format attaches no
+    meaning to their order.  Only MetaModule records are permuted: a Sampler's sample header / sample data chunks are a
+    pair by position (header first), which the library relies on - observed, not judged."""
+    top = iffparse.parse(raw)
+    chunks = [(c[0], c[1]) for c in top]
+    out, i, permuted = [], 0, 0
+    styp = None
+    while i < len(chunks):
+        if chunks[i][0] == b"STYP":
+            styp = chunks[i][1].rstrip(b"\0")
+        if chunks[i][0] != b"CHNM" or styp != b"MetaModule":
+            out.append(chunks[i])
+            i += 1
+            continue
+        groups = []
+        while i < len(chunks) and chunks[i][0] == b"CHNM":
+            g = [chunks[i]]
+            i += 1
+            while i < len(chunks) and chunks[i][0] in (b"CHDT", b"CHFF", b"CHFR"):
+                g.append(chunks[i])
+                i += 1
+            groups.append(g)
+        if len(groups) > 1:
+            rng.shuffle(groups)
+            permuted += 1
+        for g in groups:
+            out.extend(g)
+    if not permuted:
+        return
+    res.count("chunk_group_permutations")
+    try:
+        o = workload.load(iffparse.build(out))
+    except Exception as e:
+        res.violation(f"C04:permuted-chunk-groups-unloadable:{workload.exc_key(e)}", f"{origin}: module-specific chunk groups in another order do not load: {e!r}", desc)
+        return
+    S = _snap(o)
+    if S != base_snap:
+        d = snapshot.diff(base_snap, S)
+        res.violation(f"C04:permuted-chunk-groups:{snapshot.field_key(d[0][0]) if d else '?'}", f"{origin}: with the module-specific chunk groups in another order {d[:2]}", desc)
+
+
 def run_edits(res, origin, raw, desc, rng, tier):
     try:
         base = workload.load(raw)
@@ -550,6 +627,8 @@ def run_edits(res, origin, raw, desc, rng, tier):
     edits_unknown(res, origin, raw, base_snap, desc, rng, tier)
     edits_drop_optional(res, origin, raw, base_snap, desc)
     edits_truncate_cvals(res, origin, raw, base_snap, desc)
+    edits_no_modules(res, origin, raw, base_snap, desc)
+    edits_permute_groups(res, origin, raw, base_snap, desc, rng)
 
 
 def older_sampler_layouts(res, rng, n):
